@@ -166,3 +166,48 @@ def orun {V : Type} (body : Nat → V) (dflt : V) : List Nat → OState V → OS
     | none => orun body dflt rest s
 
 end Nject.Conc
+
+namespace Nject.Conc
+
+/-! ## debug.go / api.go: the debug lock (RWMutex) and the debug flag -/
+
+inductive LPhase where
+  | idle
+  | reading        -- bindFast: holds debugLock.RLock
+  | capturing      -- captureDoBindDebugging: holds debugLock.Lock, debug = 1
+  | stuck          -- captureDoBindDebugging returned "already capturing" WITHOUT unlocking
+deriving DecidableEq, Repr
+
+structure LState where
+  readers : Nat
+  writer : Option Nat
+  debug : Bool
+  th : Nat → LPhase
+
+def LState.init : LState := { readers := 0, writer := none, debug := false, th := fun _ => .idle }
+
+def setL (th : Nat → LPhase) (t : Nat) (p : LPhase) : Nat → LPhase := fun t' => if t' = t then p else th t'
+
+/-- `capture = false`: a Bind takes/releases the read lock; `capture = true`: a capture of the debug trace -/
+def lstep (s : LState) (t : Nat) (capture : Bool) : Option LState :=
+  match s.th t with
+  | .idle =>
+    if capture then
+      if s.writer.isNone && s.readers == 0 then
+        if s.debug then some { s with writer := some t, th := setL s.th t .stuck }
+        else some { s with writer := some t, debug := true, th := setL s.th t .capturing }
+      else none
+    else
+      if s.writer.isNone then some { s with readers := s.readers + 1, th := setL s.th t .reading } else none
+  | .reading => some { s with readers := s.readers - 1, th := setL s.th t .idle }
+  | .capturing => some { s with writer := none, debug := false, th := setL s.th t .idle }
+  | .stuck => none
+
+def lrun : List (Nat × Bool) → LState → LState
+  | [], s => s
+  | (t, c) :: rest, s =>
+    match lstep s t c with
+    | some s' => lrun rest s'
+    | none => lrun rest s
+
+end Nject.Conc
